@@ -108,7 +108,17 @@ def replay(arg):
 def random_dataset(rng):
     n = rng.randint(5, 20)
     times = sorted(rng.sample(range(0, 60), n))
-    samples = [dict(time=t, ego=dict(x=rng.uniform(-500, 500), y=rng.uniform(-500, 500), yaw=rng.uniform(-math.pi, math.pi))) for t in times]
+    from pyquaternion import Quaternion
+
+    def ego_pose():
+        e = dict(x=rng.uniform(-500, 500), y=rng.uniform(-500, 500), yaw=rng.uniform(-math.pi, math.pi))
+        if rng.random() < 0.5:   # a tilted ego (slope / bank): full 3-D rotation and a height
+            q = Quaternion(axis=[0, 0, 1], radians=e["yaw"]) * Quaternion(axis=[0, 1, 0], radians=rng.uniform(-0.15, 0.15)) * Quaternion(axis=[1, 0, 0], radians=rng.uniform(-0.1, 0.1))
+            e["quat"] = [float(v) for v in q.elements]
+            e["z"] = rng.uniform(-3, 3)
+        return e
+
+    samples = [dict(time=t, ego=ego_pose()) for t in times]
     cats = {i: rng.choice(["car", "pedestrian.adult", "bus", "movable_object.barrier", "unregistered.thing", "vehicle.truck", "bicycle"]) for i in range(1, 7)}
     anns = []
     for i in cats:
@@ -160,7 +170,7 @@ def replay_random(arg):
                 if any(abs(x - y) > 1e-6 for x, y in zip(om.state.position, (an["x"], an["y"], an["z"]))) or not ang_close(om.state.orientation.yaw_pitch_roll[0], an["yaw"], 1e-6):
                     mism.append(("pose:map", "map pose of %s differs from the annotation" % o.uuid, rep))
                 p, r = M.transform(o.state.position, o.state.orientation)
-                if any(abs(x - y) > 1e-6 for x, y in zip(p, om.state.position)) or not ang_close(r.yaw_pitch_roll[0], om.state.orientation.yaw_pitch_roll[0], 1e-6):
+                if any(abs(x - y) > 1e-6 for x, y in zip(p, om.state.position)) or abs(r.rotation_matrix - om.state.orientation.rotation_matrix).max() > 1e-6:
                     mism.append(("pose:base_link", "ego->map applied to the ego pose of %s misses its map pose by %s" % (o.uuid, [x - y for x, y in zip(p, om.state.position)]), rep))
                 if o.pointcloud_num != an["pts"] or o.visibility is None or o.visibility.value != an["vis"]:
                     mism.append(("point-count-or-visibility", "object %s" % o.uuid, rep))
@@ -211,4 +221,4 @@ def run(ctx: Ctx):
         "labels, attributes, sizes, points, visibility member, poses to 1e-9, tracked past positions, stored ego->map transform). Random float "
         "datasets (5-20 samples, 6 instances) are loaded in both frames and checked for structure and ego->map consistency to 1e-6."
     )
-    ctx.assumptions += ["lidar calibrated at the ego origin (T4 convention)", "lattice poses: quarter-turn ego yaw, 15-degree object yaw; random datasets use yaw-only ego rotation"]
+    ctx.assumptions += ["lidar calibrated at the ego origin (T4 convention)", "lattice poses: quarter-turn ego yaw, 15-degree object yaw; random datasets use arbitrary yaw and, for half of the samples, pitch / roll / height of the ego"]
